@@ -32,7 +32,8 @@ def load_corpus(pid):
     return out
 
 
-HOOK_COMMITS = ["29e0810", "739e797", "cf39cf9"]
+HOOK_COMMITS = ["29e0810", "739e797", "cf39cf9", "652b91e", "e71d18b", "87e24fd", "a0b177c", "d307356", "a2cf7a8", "32ea923",
+                "c3212bb", "2017279", "f82d6ac", "f4f6e91", "3d9871e", "eae7527", "430b815"]
 NOT_CLAIMED = {}
 
 
@@ -1902,7 +1903,111 @@ class C13(HistorySpec):
     assumptions = C09.assumptions
 
 
-REGISTRY = {c.pid: c for c in [C01, C02, C04, C05, C06, C07, C08, C09, C10, C11, C12, C13, C14, C15, C16, C17, C19]}
+def canon_lock(text):
+    e = vetlib.parse_sexp(text)
+    def files(l):
+        return [sorted(int(x) for x in f[1:]) for f in l]
+    views = vetlib.sexp_get(e, "views")
+    final = vetlib.sexp_get(e, "final")
+    return {"views": [[int(v[1])] + files(v[2:]) for v in views[1:]], "final": files(final[1:])}
+
+
+class C18(SimpleSpec):
+    pid = "C18"
+    model_imports = ["Base", "Extracted", "Show", "Lock", "ShowLock"]
+    coq_files = ["Properties/C18.v"]
+    theorems = ["C18_mutex", "C18_no_torn_read", "C18_quiescent_files_agree", "C18_no_lost_update", "C18_locks_are_exclusive"]
+    level_text = ("Theorems about a transition-system model of N processes sharing one store directory, for EVERY number of "
+                  "processes, every assignment of roles (committing / dropping) and every schedule (any list of process ids, so any "
+                  "think time): mutual exclusion of the load..commit sections, every loaded triple of files is one committed state "
+                  "(no torn read), the files agree with the serial history whenever nobody is inside, and every finished committer's "
+                  "marker is in all three files (no lost update). The per-process action lists (lock, read x3, write x3, release) and "
+                  "the facts 'the store lock / cache lock is an exclusive flock taken before the first read, a contended attempt "
+                  "blocks, dropping the FileLock unlocks' are re-read from storage.rs / flock.rs by the translator on every run. "
+                  "PARTIAL: flock(2) itself (exclusive between open file descriptions, released on unlock/close) is the DEFINITION of "
+                  "the model's Lock/Unlock steps, not verified; NFS / lock-less file systems, where flock.rs deliberately skips "
+                  "locking, and crashes between the three writes are outside the model.")
+    level_note = ("The implementation side runs 2-9 real threads through Store::acquire_offline .. Store::commit / drop and "
+                  "Cache::acquire .. drop on one temp directory with generated start delays and think times; the order in which "
+                  "they obtained the lock is observed and the model is run on that serial schedule, so every user's loaded view "
+                  "and the final files are compared with the model's; a direct oracle checks exclusion counters, load errors, "
+                  "final contents and the cache's read-modify-write counter.")
+    design_ref = "DESIGN.md §4 C18"
+    rule = ("2-9 users per case (60% writers adding one marker to each of the three files, readers, cache users incrementing a "
+            "counter kept in the cache's command history), start delays 0-300us (60%) or 0-4ms, think times 0-5ms between load and "
+            "commit, 0-400 padding entries per file so that a write is not instantaneous; non-trivial = some user had to wait "
+            "for the lock (asked before another user's release, obtained after it)")
+    projection_doc = "per store user in lock order: the marker sets it loaded from config.toml / audits.toml / imports.lock; the final marker sets"
+    assumptions = ["flock(2) on a local file system", "threads of one process stand for processes (each user opens its own file description)"]
+    quick_n = 150
+    thorough_n = 3000
+
+    def model_modules_paths(self):
+        return ["ShowLock"]
+
+    def gen_cases(self, rng, n):
+        return [gen.gen_lock_case(rng, f"l{i}") for i in range(n)]
+
+    def model_expr(self, o):
+        mi = o["model_input"]
+        return f"show_lock {coq(mi['roles'])} {coq(mi['order'])}"
+
+    def canon(self, text):
+        return canon_lock(text)
+
+    def contended(self, o):
+        us = [u for u in o["users"] if "got_us" in u]
+        for a in us:
+            for b in us:
+                if a is not b and (a["role"] == "cache") == (b["role"] == "cache") and a["asked_us"] < b["released_us"] and a["got_us"] >= b["released_us"] - 50 and b["got_us"] < a["got_us"]:
+                    return True
+        return False
+
+    def nontrivial(self, case, o, c):
+        return self.contended(o)
+
+    def tag(self, case, o, c):
+        return "contended" if self.contended(o) else "uncontended"
+
+    def describe(self, case, o):
+        return {"id": case["id"], "users": case["users"], "observation": o["obs"][:300]}
+
+    def oracle(self, case, o, c):
+        out = []
+        users = o["users"]
+        for u in users:
+            if u["outcome"] != "ok":
+                out.append(f"user {u['user']} ({u['role']}): {u['outcome']} {u.get('error', '')[:200]}")
+        if o["max_inside_store"] > 1:
+            out.append(f"{o['max_inside_store']} store users were between load and commit at the same time")
+        if o["max_inside_cache"] > 1:
+            out.append(f"{o['max_inside_cache']} cache users held the cache at the same time")
+        if o["final_status"] != "ok":
+            out.append("the final store does not load: " + o["final_status"][:200])
+        writers_ok = sorted(u["user"] for u in users if u["role"] == "writer" and u["outcome"] == "ok")
+        for f, name in enumerate(["config.toml", "audits.toml", "imports.lock"]):
+            got = sorted(o["final"][f]) if o["final"] else None
+            if got != writers_ok:
+                out.append(f"final {name} holds the markers {got}, the invocations that reported success are {writers_ok}")
+            if o["final_pad"] and o["final_pad"][f] != o["padding"]:
+                out.append(f"final {name} lost initial entries ({o['final_pad'][f]} of {o['padding']})")
+        store_users = sorted((u for u in users if u["role"] != "cache" and "order" in u), key=lambda u: u["order"])
+        before = []
+        for u in store_users:
+            for f in range(3):
+                if sorted(u["view"][f]) != sorted(before):
+                    out.append(f"user {u['user']} loaded file {f} with markers {sorted(u['view'][f])}; the commits before it were {sorted(before)}")
+                if u["pad_seen"][f] != o["padding"]:
+                    out.append(f"user {u['user']} loaded file {f} with {u['pad_seen'][f]} of {o['padding']} initial entries (torn read)")
+            if u["role"] == "writer" and u["outcome"] == "ok":
+                before.append(u["user"])
+        ncache = sum(1 for u in users if u["role"] == "cache" and u["outcome"] == "ok")
+        if ncache and o["cache_count"] != ncache:
+            out.append(f"the cache counter is {o['cache_count']} after {ncache} read-increment-write users")
+        return out
+
+
+REGISTRY = {c.pid: c for c in [C01, C02, C04, C05, C06, C07, C08, C09, C10, C11, C12, C13, C14, C15, C16, C17, C18, C19]}
 
 
 def get(pid):
